@@ -247,6 +247,37 @@ func (w *walker) complete(t *gast.Type, nodes []*Sel, v any, pos, path, where st
 			w.stat("observed_nullable_position_present")
 		}
 	}
+	if t.Elem != nil {
+		// projection of the service's list wrapper states: null and [] stay distinct
+		outer := !strings.HasSuffix(pos, "]")
+		if outer && (!t.NonNull || t.Elem.Elem != nil) {
+			w.stat("list_wrapper_positions")
+		}
+		want := ""
+		switch mode := w.e.svc.listMode; {
+		case outer && !t.NonNull && (mode == listNullAbsent || mode == listNullNoInnerList):
+			want = "null"
+		case outer && !t.NonNull && mode == listEmpty:
+			want = "[]"
+		case !outer && !t.NonNull && mode == listInnerNull:
+			want = "null"
+		case !outer && !t.NonNull && mode == listInnerEmpty:
+			want = "[]"
+		}
+		arr, isArr := v.([]any)
+		got := "a list of " + strconv.Itoa(len(arr))
+		switch {
+		case v == nil:
+			got = "null"
+		case isArr && len(arr) == 0:
+			got = "[]"
+		case !isArr:
+			got = canonLeaf(v)
+		}
+		if want != "" && got != want {
+			w.add("null list and empty list of the service are not kept apart", where, path, fmt.Sprintf("service state %q: the list of type %s is %s in the service data, the answer has %s", listModeNames[w.e.svc.listMode], t.String(), want, got), id)
+		}
+	}
 	if v == nil {
 		if t.NonNull {
 			w.add("null at a non-null position", where, path, fmt.Sprintf("null for type %s", t.String()), id)
